@@ -35,9 +35,10 @@ def nc(name):
 
 
 class World:
-    def __init__(self, small, signs=None):
+    def __init__(self, small, signs=None, at=None):
         self.small = small          # True: small-angle side of every precision switch
         self.signs = signs or {}    # decisions for sign conditions: sexp(cond) -> bool
+        self.at = at                # a fixed value of TH: every comparison is decided by exact substitution
 
 
 class JetEval:
@@ -113,7 +114,10 @@ class JetEval:
             if op == "=":
                 return self.assign(n["ch"][0], self.ev(n["ch"][1]))
             a, b = self.ev(n["ch"][0]), self.ev(n["ch"][1])
-            return self.binop(op, a, b)
+            r = self.binop(op, a, b)
+            if isinstance(r, tuple) and r[0] == "cmp":
+                r = r + (n,)          # remember the node: the comparison may be used as a number ((0 < x) - (x < 0))
+            return r
         if k == "CompoundAssignOperator":
             op = n.get("op")[0]
             cur = self.ev(n["ch"][0])
@@ -132,7 +136,16 @@ class JetEval:
             return [self.ev(c) for c in n["ch"]]
         raise Unknown(k)
 
+    def as_number(self, x):
+        """a comparison used arithmetically is 1 / 0 in this world"""
+        if isinstance(x, tuple) and x[0] in ("cmp", "and", "or"):
+            node = x[4] if x[0] == "cmp" and len(x) > 4 else None
+            return sp.Integer(1) if self.decide(x, node) else sp.Integer(0)
+        return x
+
     def binop(self, op, a, b):
+        if op in ("+", "-", "*", "/"):
+            a, b = self.as_number(a), self.as_number(b)
         if op == "+":
             return a + b
         if op == "-":
@@ -286,7 +299,18 @@ class JetEval:
         if c == sp.false:
             return False
         if isinstance(c, tuple) and c[0] == "cmp":
-            _, op, a, b = c
+            _, op, a, b = c[:4]
+            if len(c) > 4 and c[4] is not None:
+                n = c[4]
+            if self.world.at is not None:
+                try:
+                    va = sp.nsimplify(sp.simplify(a.subs({TH: self.world.at, EPS: sp.Rational(100, 2 ** 52)}))) if isinstance(a, sp.Expr) else None
+                    vb = sp.nsimplify(sp.simplify(b.subs({TH: self.world.at, EPS: sp.Rational(100, 2 ** 52)}))) if isinstance(b, sp.Expr) else None
+                except (TypeError, ValueError):
+                    va = vb = None
+                if va is None or vb is None or not (va.is_number and vb.is_number and va.is_real and vb.is_real):
+                    raise Unknown("comparison not decidable at th = %s: %s" % (self.world.at, sexp(n)[:80]))
+                return bool({"<": va < vb, "<=": va <= vb, ">": va > vb, ">=": va >= vb, "==": sp.simplify(va - vb) == 0, "!=": sp.simplify(va - vb) != 0}[op])
             eps_side = None
             a_eps = isinstance(a, sp.Expr) and a.has(EPS)
             b_eps = isinstance(b, sp.Expr) and b.has(EPS)
@@ -313,10 +337,18 @@ class JetEval:
                 self.switches.append((n.get("ln") if isinstance(n, dict) else None, q, q_small_when, thr))
                 return q_small_when if self.world.small else (not q_small_when)
             key = sexp(n)
-            if key not in self.world.signs:
-                self.sign_conds.append(key)
-                raise NeedSign(key)
-            return self.world.signs[key]
+            if key in self.world.signs:
+                return self.world.signs[key]
+            # both sides have distinct finite values at the identity (cos_angle = +-1 against 0): decided, not free
+            try:
+                la = sp.limit(a, TH, 0) if isinstance(a, sp.Expr) else None
+                lb = sp.limit(b, TH, 0) if isinstance(b, sp.Expr) else None
+                if la is not None and lb is not None and la.is_number and lb.is_number and la.is_real and lb.is_real and la != lb:
+                    return bool({"<": la < lb, "<=": la <= lb, ">": la > lb, ">=": la >= lb, "==": False, "!=": True}[op])
+            except (NotImplementedError, ValueError, TypeError):
+                pass
+            self.sign_conds.append(key)
+            raise NeedSign(key)
         if isinstance(c, tuple) and c[0] == "and":
             return self.decide(c[1], n) and self.decide(c[2], n)
         if isinstance(c, tuple) and c[0] == "or":
